@@ -735,13 +735,15 @@ class Served(Family):
     the wire path: request line -> protocol -> middleware -> Router.route -> handler.  The property is judged against
     the directory the written root IS for the operating system."""
     name = "served"
-    quick_n = 1600
+    quick_n = 1200
     thorough_n = 30000
 
     def setup(self):
         Static.setup(self)
 
     def gen(self, rng: random.Random, n: int):
+        # (the command-line --max-file-size is not handed to [[locations]] handlers - only the table's own or the
+        # [server] max_file_size count there - so it is generated for the other two routes only)
         for i in range(n):
             tree = T.gen_tree(rng, max_nodes=14 if i % 3 == 0 else 22, names=NAMES)
             extra, sp = _root_spelling(rng, tree)
@@ -760,7 +762,7 @@ class Served(Family):
                    "server_root": rng.choice(["root-evil", "out", "out/sub", "root"]),
                    "listing": int(rng.random() < 0.5), "listing_by": rng.choice(["cli", "loc"]),
                    "indices": None if how != "location" or rng.random() < 0.8 else rng.choice([["index.gmi"], ["f.gmi", "index.gmi"]]),
-                   "max": mx, "max_by": rng.choice(["loc", "server", "cli"] if how == "location" else ["server", "cli"] if how == "server" else ["cli"]),
+                   "max": mx, "max_by": rng.choice(["loc", "server"] if how == "location" else ["server", "cli"] if how == "server" else ["cli"]),
                    "ratelimit": int(how == "arg" or rng.random() < 0.3),
                    "paths": _requests(rng, tree, 8, own_p=0.6)}
 
